@@ -215,6 +215,8 @@ func main() {
 	r.Cases("generic-deep", r.N(60, 2500), opt, genericDeepCase)
 	r.Cases("intdiff", r.N(20000, 500000), opt, intDiffCase)
 	r.Cases("reinit", r.N(5000, 100000), opt, reinitCase)
+	r.Cases("popall-mutating", r.N(30000, 1000000), opt, popAllMutCase)
+	r.Require("popall_mutating_loops", 10000)
 
 	// anti-vacuity floors (quick tier observes 20-1000x these numbers)
 	for k, v := range map[string]int64{
